@@ -1,4 +1,5 @@
 import GodiProofs.Container.Instances
+import GodiProofs.Container.TransientFresh
 /-!
 # C03 — Transient: a fresh instance for every resolution and every injection site
 -/
@@ -65,11 +66,42 @@ theorem fresh_instance (beh : Beh) (f : Nat) (st : State) (s : Nat) (d : Desc) (
         have h2 := hsh.next
         exact ⟨hnext, Nat.lt_of_lt_of_le (Nat.lt_of_succ_le h1) h2⟩
 
+/-- NEVER STORED ANYWHERE, over Build and all histories: for every registry with the collection's
+structural guarantees, every constructor behaviour, every creation order with which Build succeeds and
+every history of resolutions, group resolutions, scope creations and closes afterwards, neither the
+singleton table nor the cache of any scope holds an instance that a constructor of a transient
+registration produced. So the only way a transient instance is ever obtained is the single return of the
+`createInstance` call that constructed it (`always_constructs`, `fresh_instance`): it cannot be handed
+out a second time — whatever scope, key, alias or group it is reached through. -/
+theorem transient_instances_never_stored (beh : Beh) (descs : List Desc) (order : List Nat) (ops : List Op)
+    (wf : WF descs) (rw' : RegWF descs) (hz : ¬ TransCtor descs 0)
+    (hok : (buildRuntime beh descs order).2 = .ok ()) :
+    (∀ k i, lookup (run beh (buildRuntime beh descs order).1 ops).singletons k = some (.inst i) →
+      ¬ TransCtor descs ((run beh (buildRuntime beh descs order).1 ops).instMeta i).1) ∧
+    (∀ s k i, lookup (((run beh (buildRuntime beh descs order).1 ops).scope s).instances.getD []) k = some (.inst i) →
+      ¬ TransCtor descs ((run beh (buildRuntime beh descs order).1 ops).instMeta i).1) := by
+  have cfg : TCfg descs := ⟨wf, rw'⟩
+  have tc := tc_run beh cfg ops _ (build_tc beh cfg hz order hok)
+  exact ⟨fun k i h => (tc.tbl k _ h).1, fun s k i h => (tc.cache s k _ h).1⟩
+
+/-- the instances a transient constructor produces carry that constructor in `instMeta`: the hypothesis
+of the theorem above is about the right instances -/
+theorem produced_by (st : State) (k c n d s : Nat) (args : List Val) (outs : List Inst) (i : Inst)
+    (h1 : st.next ≤ i) (h2 : i < st.next + k) :
+    ((logEv (alloc st k c n) (.ctor d c n s args outs)).instMeta i).1 = c := by
+  rw [instMeta_alloc_log st k c n d s args outs i h1 h2]
+
 def ex : List Desc :=
   [{ id := 0, ident := ⟨3, 0, 0⟩, life := .transient, ctor := 1, kind := .plain, deps := [] },
    { id := 1, ident := ⟨4, 0, 0⟩, life := .scoped, ctor := 2, kind := .plain, deps := [{ ty := 3 }, { ty := 3 }] }]
 /-- a consumer taking the transient twice gets two different instances; a direct request a third -/
 example : (scopeGet {} (scopeGet {} (buildRuntime {} ex []).1 0 4 0).1 0 3 0).1.log =
     [.ctor 0 1 1 0 [] [1], .ctor 0 1 2 0 [] [2], .ctor 1 2 1 0 [.inst 1, .inst 2] [3], .ctor 0 1 3 0 [] [4]] := by decide
+
+/-- the hypotheses of `transient_instances_never_stored` are satisfiable -/
+example : WF ex ∧ RegWF ex ∧ ¬ TransCtor ex 0 ∧
+    (match (buildRuntime {} ex []).2 with | .ok _ => true | .error _ => false) = true := by
+  refine ⟨⟨?_, ?_⟩, ⟨?_, ?_, ?_, ?_, ?_, ?_⟩, ?_, by decide⟩ <;>
+    simp [SibLife, ex, findDesc, TransCtor] <;> decide
 
 end Godi.Props.C03
